@@ -87,6 +87,12 @@ def snap_generic(v, depth=0):
     return type(v).__name__
 
 
+def snap_ds(ds):
+    return {"vars": {str(k): {"dims": list(map(str, v.dims)), "values": np.asarray(v.values).tolist(), "attrs": snap_generic(dict(v.attrs))}
+                     for k, v in ds.variables.items()},
+            "attrs": snap_generic(dict(ds.attrs))}
+
+
 def snap_env(env):
     s = {"arrays": {k: snap_array(v) for k, v in env.arrays.items()},
          "objects": {str(k): snap_obj(v) for k, v in env.objects.items()},
@@ -150,6 +156,11 @@ def check(case, ctx):
             d = first_diff(snap_obj(env.grid_kw), snap_obj(_same_ids(fresh_kw, env.grid_kw)))
             if d and "ids" not in d:
                 raise Violation("Grid construction modified one of its arguments", where=d)
+        # ... nor the dataset it was given (values, dims, attributes - their types included)
+        if sc.get("grid") is not None:
+            d = first_diff(snap_ds(scenario.build_dataset(sc, env.nm)), snap_ds(env.ds))
+            if d:
+                raise Violation("Grid construction modified the dataset it was given", where=d)
         outcomes = []
         shared_dict = False
         for k, idx in enumerate(seq):
